@@ -238,9 +238,9 @@ def load(
 
     sample_format = icap_csv_sample_format(path)
     if sample_format == "rows":
-        data = icap_csv_rows_read_data(path)
+        data = icap_csv_rows_read_data(path, use_analog=use_analog)
     elif sample_format == "columns":
-        data = icap_csv_columns_read_data(path)
+        data = icap_csv_columns_read_data(path, use_analog=use_analog)
     else:  # pragma: no cover
         raise ValueError("Unknown iCap CSV format.")
 
